@@ -19,7 +19,7 @@ const char* const kNames[] = {"execute", "submit", "co_execute", "co_submit", "p
 
 struct TaskRec {
   int id = 0, parent = -1, kind = 0;
-  int children = 0, grandchildren = 0, sleep_us = 0;
+  int children = 0, grandchildren = 0, sleep_us = 0; bool spawn_first = false;
   bool attempted = false, accepted = false, refused = false;
   uint64_t submit_ret = 0;       // stamp when the submission call returned
   bool local_spawn = false;      // went into the submitting worker's local queue
@@ -80,11 +80,14 @@ uint64_t body(TaskRec* t) {
   if (!t->accepted && !t->attempted) fail("ran-unsubmitted", "task", "task %d ran without being submitted", t->id);
   if (t->refused) fail("ran-refused", "task", "task %d ran although its submission was refused", t->id);
   if (!S->ex->is_running_in()) { t->in_exec = false; fail("wrong-thread", "is_running_in", "task %d runs on a thread that does not report is_running_in() for its executor", t->id); }
-  if (t->sleep_us > 0) ::usleep((useconds_t)t->sleep_us);
+  // either work first and spawn at the end, or spawn first and keep the worker
+  // busy while the children sit in its local queue (to be stolen or balanced)
+  if (t->sleep_us > 0 && !t->spawn_first) ::usleep((useconds_t)t->sleep_us);
   for (int i = 0; i < t->children; i++) {
     TaskRec* c = new_task(t->id, t->grandchildren, 0, 0, K_SUBMIT);
     submit_task(c);
   }
+  if (t->sleep_us > 0 && t->spawn_first) ::usleep((useconds_t)t->sleep_us);
   sim::yield_point();
   t->finished = true;
   return value_of(t->id);
@@ -144,6 +147,7 @@ void do_op(int t, const Op& op) {
   int children = (int)(op.a & 3), grand = (int)((op.a >> 2) & 1);
   if (children > 2) children = 2;
   TaskRec* r = new_task(-1, children, grand, (int)std::max<int64_t>(0, std::min<int64_t>(op.b, 2000)), op.kind);
+  r->spawn_first = (op.a >> 3) & 1;
   submit_task(r);
 }
 
@@ -172,7 +176,7 @@ void gen(Rng& r, Plan& p, const GenParams& gp) {
       static const int ks[] = {K_EXECUTE, K_EXECUTE, K_SUBMIT, K_CO_EXECUTE, K_CO_SUBMIT};
       o.kind = ks[r.below(5)];
       int children = stop_mode == 3 ? 0 : (int)r.below(3);
-      o.a = children | ((int64_t)r.below(2) << 2);
+      o.a = children | ((int64_t)r.below(2) << 2) | ((int64_t)r.below(2) << 3);
       o.b = r.chance(1, 3) ? (int64_t)r.range(1, 500) : 0;
       o.id = opid++;
       p.threads[(size_t)t].push_back(o);
@@ -207,7 +211,7 @@ void gen(Rng& r, Plan& p, const GenParams& gp) {
     for (auto& th : p.threads) th.clear();
     p.threads.resize(2);
     int nparents = (int)r.range(10, 14);
-    for (int i = 0; i < nparents; i++) { Op o; o.kind = K_SUBMIT; o.a = 1; o.b = (int64_t)r.range(200, 600); o.id = i; p.threads[1].push_back(o); }
+    for (int i = 0; i < nparents; i++) { Op o; o.kind = K_SUBMIT; o.a = 1 | 8; o.b = (int64_t)r.range(200, 600); o.id = i; p.threads[1].push_back(o); }
     p.cfg["global_cap"] = 64;
   }
   // faulty executor: which attempts are refused
